@@ -38,11 +38,12 @@ type Stats struct {
 }
 
 type rewriter struct {
-	fset  *token.FileSet
-	info  *types.Info
-	pkg   *types.Package
-	opt   Options
-	stats Stats
+	usesCPUs bool
+	fset     *token.FileSet
+	info     *types.Info
+	pkg      *types.Package
+	opt      Options
+	stats    Stats
 
 	commStmts  map[ast.Node]bool        // Comm statements of select clauses (left alone by the generic rules)
 	recv2      map[*ast.UnaryExpr]bool  // receive in a comma-ok context
@@ -144,8 +145,14 @@ func Rewrite(opt Options) (overlayPath string, st Stats, err error) {
 	rw.fileUsesVS = map[int]bool{}
 	for i, f := range files {
 		rw.usesVS = false
+		rw.usesCPUs = false
 		rw.apply(f)
 		rw.fileUsesVS[i] = rw.usesVS
+		if rw.usesCPUs {
+			// keep the import of package runtime used
+			f.Decls = append(f.Decls, &ast.GenDecl{Tok: token.VAR, Specs: []ast.Spec{&ast.ValueSpec{Names: []*ast.Ident{ast.NewIdent("_")},
+				Values: []ast.Expr{&ast.SelectorExpr{X: ast.NewIdent("runtime"), Sel: ast.NewIdent("Version")}}}}})
+		}
 		if rw.usesVS {
 			astutil.AddNamedImport(fset, f, "vsched", vschedPath)
 		}
@@ -509,6 +516,17 @@ func (rw *rewriter) apply(f *ast.File) {
 			rw.stats.ChanTypes++
 			c.Replace(&ast.StarExpr{X: &ast.IndexExpr{X: vs("Chan"), Index: x.Value}})
 		case *ast.CallExpr:
+			// the number of CPUs is an answer of the environment: runtime.GOMAXPROCS(n) / runtime.NumCPU() ask the harness
+			if se, ok := x.Fun.(*ast.SelectorExpr); ok {
+				if id, ok := se.X.(*ast.Ident); ok {
+					if pn, ok := rw.info.Uses[id].(*types.PkgName); ok && pn.Imported().Path() == "runtime" && (se.Sel.Name == "GOMAXPROCS" || se.Sel.Name == "NumCPU") {
+						rw.usesVS = true
+						rw.usesCPUs = true
+						x.Fun = vs(se.Sel.Name)
+						return true
+					}
+				}
+			}
 			switch rw.chanCalls[x] {
 			case "make":
 				rw.usesVS = true
